@@ -44,9 +44,9 @@ DEREF_OPS = {"operator->", "operator*"}
 HOOK = "cppcms_verif_cache_hook"
 
 
-def clang_ast(src, incs):
+def clang_ast(src, incs, flt="mem_cache"):
     cmd = ["clang++-14", "-std=gnu++17", "-fsyntax-only", "-w", "-DCPPCMS_VERIF_HOOKS"] + ["-I" + i for i in incs] + \
-          ["-Xclang", "-ast-dump=json", "-Xclang", "-ast-dump-filter=mem_cache", src]
+          ["-Xclang", "-ast-dump=json", "-Xclang", "-ast-dump-filter=" + flt, src]
     p = subprocess.run(cmd, stdout=subprocess.PIPE, stderr=subprocess.PIPE)
     if p.returncode != 0:
         raise Untranslatable("clang cannot parse " + src + ": " + p.stderr.decode()[-1500:])
@@ -95,11 +95,171 @@ def qt(n):
     return t.get("desugaredQualType") or t.get("qualType") or ""
 
 
+
+MAP_CLASSES = {"cppcms::impl::hash_map<": "hash_map", "cppcms::impl::details::basic_map<": "basic_map",
+               "cppcms::impl::details::intrusive_list<": "intrusive_list"}
+
+
+def map_class_of(t):
+    t = t.strip()
+    while t.startswith("const "):
+        t = t[6:]
+    for pre, nm in MAP_CLASSES.items():
+        if t.startswith(pre):
+            return nm
+    return None
+
+
+def is_ref_decl(rd):
+    return (rd.get("type") or {}).get("qualType", "").rstrip().endswith("&")
+
+
+class MapEffects:
+    """Does a member function of private/hash_map.h (hash_map, details::basic_map, details::intrusive_list, as
+    instantiated in cache_storage.cpp) write anything that outlives the call?  Decided from the bodies in the
+    clang AST, transitively; name-based across instantiations and overloads (the OR of all of them).
+    A write = assignment / ++ / -- / mutating std member / placement new / destructor whose target is a member of
+    *this, something reached through a pointer, an element of a container, or a reference (variable or
+    parameter).  Writes to plain local variables do not count.  kinds: 'this' (members of the object the method
+    is called on) and 'deref' (anything reached through pointers/references)."""
+
+    def __init__(self, src, incs):
+        self.bodies = {}      # (class, name) -> list of (method decl)
+        for flt, cls in (("hash_map", "hash_map"), ("basic_map", "basic_map"), ("intrusive_list", "intrusive_list")):
+            for o in clang_ast(src, incs, flt):
+                if o.get("kind") == "ClassTemplateDecl" and o.get("name") == cls:
+                    for spec in kids(o):
+                        if spec.get("kind") == "ClassTemplateSpecializationDecl":
+                            self.collect(cls, spec)
+        for need in (("hash_map", "find"), ("basic_map", "find"), ("basic_map", "find_in_range"), ("basic_map", "insert"),
+                     ("basic_map", "erase"), ("basic_map", "clear"), ("basic_map", "rehash"), ("intrusive_list", "erase")):
+            if need not in self.bodies:
+                raise Untranslatable(f"private/hash_map.h: {need[0]}::{need[1]} is not instantiated / was renamed")
+        self.memo = {}
+        self.sites = {}
+
+    def collect(self, cls, spec):
+        for m in kids(spec):
+            k = m.get("kind")
+            if k in ("CXXMethodDecl", "CXXDestructorDecl"):
+                if any(x.get("kind") == "CompoundStmt" for x in kids(m)):
+                    self.bodies.setdefault((cls, m.get("name")), []).append(m)
+            elif k == "FunctionTemplateDecl":
+                for sp in kids(m):
+                    if sp.get("kind") == "CXXMethodDecl" and any(x.get("kind") == "CompoundStmt" for x in kids(sp)):
+                        self.bodies.setdefault((cls, sp.get("name")), []).append(sp)
+
+    def effect(self, cls, name):
+        """set of kinds written by cls::name"""
+        key = (cls, name)
+        if key in self.memo:
+            if self.memo[key] is None:
+                raise Untranslatable(f"private/hash_map.h: recursion through {cls}::{name}")
+            return self.memo[key]
+        if key not in self.bodies:
+            # declared but never instantiated with a body in this translation unit (e.g. size(), end()): read the
+            # template pattern instead is not possible here; such a function is not called by the cache either
+            raise Untranslatable(f"private/hash_map.h: {cls}::{name} is called but has no instantiated body")
+        self.memo[key] = None
+        kinds, sites = set(), []
+        for m in self.bodies[key]:
+            body = [x for x in kids(m) if x.get("kind") == "CompoundStmt"][0]
+            self.walk(body, cls, kinds, sites, f"{cls}::{name}")
+        self.memo[key] = kinds
+        self.sites[key] = sites
+        return kinds
+
+    def target(self, n):
+        """where does a write to expression n go: 'local' | 'this' | 'deref'"""
+        n = strip(n)
+        k = n.get("kind")
+        if k == "DeclRefExpr":
+            rd = n.get("referencedDecl", {})
+            if rd.get("kind") in ("VarDecl", "ParmVarDecl"):
+                return "deref" if is_ref_decl(rd) else "local"
+            return "deref"
+        if k == "MemberExpr":
+            base = kids(n)[0] if kids(n) else {}
+            if n.get("isArrow"):
+                return "this" if strip(base).get("kind") == "CXXThisExpr" else "deref"
+            return self.target(base)
+        if k == "CXXThisExpr":
+            return "this"
+        return "deref"       # operator[], operator*, calls returning references, ...
+
+    def walk(self, n, cls, kinds, sites, where):
+        k = n.get("kind")
+        ks = kids(n)
+
+        def wr(expr, what):
+            t = self.target(expr)
+            if t != "local":
+                kinds.add(t)
+                sites.append(f"{where}: {what} -> {t}")
+
+        if k in ("BinaryOperator", "CompoundAssignOperator") and n.get("opcode", "").endswith("=") and \
+                n.get("opcode") not in ("==", "!=", "<=", ">=") and ks:
+            wr(ks[0], "assignment")
+        elif k == "UnaryOperator" and n.get("opcode") in ("++", "--") and ks:
+            wr(ks[0], n.get("opcode"))
+        elif k == "CXXOperatorCallExpr":
+            c = strip(ks[0]) if ks else {}
+            op = c.get("referencedDecl", {}).get("name", "")
+            if op in MUT_OPS and len(ks) > 1:
+                wr(ks[1], op)
+        elif k in ("CXXNewExpr", "CXXDeleteExpr"):
+            kinds.add("deref")
+            sites.append(f"{where}: {k} -> deref")
+        elif k == "CXXMemberCallExpr":
+            callee = strip(ks[0]) if ks else {}
+            if callee.get("kind") == "MemberExpr":
+                name = callee.get("name", "")
+                base = kids(callee)[0] if kids(callee) else {}
+                b = strip(base)
+                ocls = cls if b.get("kind") == "CXXThisExpr" else map_class_of(qt(b))
+                if name.startswith("~"):
+                    kinds.add("deref")
+                    sites.append(f"{where}: destructor call -> deref")
+                elif ocls and (ocls, name) in self.bodies or (ocls and b.get("kind") == "CXXThisExpr"):
+                    sub = self.effect(ocls, name)
+                    if "deref" in sub:
+                        kinds.add("deref")
+                        sites.append(f"{where}: calls {ocls}::{name} (writes through pointers/references)")
+                    if "this" in sub:
+                        t = "this" if b.get("kind") == "CXXThisExpr" else self.target(base)
+                        if t != "local":
+                            kinds.add(t)
+                            sites.append(f"{where}: calls {ocls}::{name} (writes its object) -> {t}")
+                elif ocls:
+                    raise Untranslatable(f"private/hash_map.h: {where} calls {ocls}::{name}, which has no instantiated body")
+                else:
+                    t = self.target(base)
+                    if t != "local":
+                        if name in MUTATING:
+                            kinds.add(t)
+                            sites.append(f"{where}: {name}() on a member/element -> {t}")
+                        elif name not in NONMUT and not name.startswith("operator"):
+                            raise Untranslatable(f"private/hash_map.h: {where}: member function `{name}` on non-local state: "
+                                                 f"classify it in translate/c09.py")
+        elif k == "CallExpr":
+            c = strip(ks[0]) if ks else {}
+            if c.get("kind") == "DeclRefExpr" and c.get("referencedDecl", {}).get("name") == "swap":
+                for a in ks[1:]:
+                    wr(a, "std::swap")
+        for c in ks:
+            self.walk(c, cls, kinds, sites, where)
+
+    def writes(self, cls, name):
+        return bool(self.effect(cls, name))
+
+
 class Cls:
     """one instantiation of mem_cache"""
 
-    def __init__(self, spec, what):
+    def __init__(self, spec, what, fx=None):
         self.what = what
+        self.fx = fx
+        self.map_calls = {}      # hash_map member functions the cache calls -> writes?
         self.methods = {}
         self.field_ids = {}      # decl id -> lean field name (this-fields)
         self.cont_ids = {}       # decl id -> lean field name (container fields)
@@ -262,7 +422,14 @@ class Cls:
                     raise Untranslatable(f"{self.what}: call of unknown member function {name}")
                 else:
                     p = self.obj_path(base)
-                    if p[0] in ("field", "node", "localref"):
+                    mcls = map_class_of(qt(strip(base)))
+                    if mcls and self.fx is not None:
+                        # a member function of private/hash_map.h: read/write decided from ITS body, not from its name
+                        w = self.fx.writes(mcls, name)
+                        self.map_calls[name] = self.map_calls.get(name, False) or w
+                        if p[0] in ("field", "node", "localref") and w:
+                            note(p, True)
+                    elif p[0] in ("field", "node", "localref"):
                         if name in MUTATING:
                             note(p, True)
                         elif name not in NONMUT:
@@ -479,11 +646,17 @@ def main(repo, lean, build=None):
                 specs[t.split("::")[-1]] = c
     if "thread_settings" not in specs:
         raise Untranslatable("mem_cache<thread_settings> is not instantiated in cache_storage.cpp")
-    tt = tables(Cls(specs["thread_settings"], "mem_cache<thread_settings>"))
+    fx = MapEffects(src, incs)
+    ct = Cls(specs["thread_settings"], "mem_cache<thread_settings>", fx)
+    tt = tables(ct)
     same = True
+    map_calls = dict(ct.map_calls)
     if "process_settings" in specs:
-        tp = tables(Cls(specs["process_settings"], "mem_cache<process_settings>"))
+        cp = Cls(specs["process_settings"], "mem_cache<process_settings>", fx)
+        tp = tables(cp)
         same = comparable(tp) == comparable(tt)
+        for k, v in cp.map_calls.items():
+            map_calls[k] = map_calls.get(k, False) or v
 
     o = []
     w = o.append
@@ -525,6 +698,13 @@ def main(repo, lean, build=None):
     ns = [f"  (.{METHODS[m]}, .{METHODS[c]}, {lean_held(h)})" for m in METHODS for c, h in tt[m]["nested"]]
     w(",\n".join(ns))
     w("]\n")
+    w("/-- member functions of `cppcms::impl::hash_map` (private/hash_map.h) that `mem_cache` calls on `primary` /\n"
+      "`triggers`, and whether their bodies (transitively: `details::basic_map`, `details::intrusive_list`) write\n"
+      "anything but local variables.  The access table above uses this, not the function's name. -/")
+    w("def hashMapCalls : List (String × Bool) := [" + ", ".join(f'("{k}", {"true" if v else "false"})' for k, v in sorted(map_calls.items())) + "]")
+    w("/-- where the hash map's functions write (informational) -/")
+    sites = sorted({x for key in fx.sites for x in fx.sites[key]})
+    w("def hashMapWriteSites : List String := [" + ", ".join('"' + x.replace('"', "'") + '"' for x in sites) + "]\n")
     w("/-- the instantiation for the process-shared back-end yields the same four tables -/")
     w(f"def processVariantSame : Bool := {'true' if same else 'false'}")
     w("\nend Cppcms.C09.Gen")
